@@ -147,12 +147,24 @@ Fixpoint nodup_keys (l : list key) : bool :=
   | k :: l' => negb (mem_key k l') && nodup_keys l'
   end.
 
-(** rows of unmined transactions are orphans (not in any scanned block); mined rows are in a
-    scanned block at that height *)
+(** Mined rows are in a scanned block at that height.  An un-mined row is an orphan (its
+    transaction is in no scanned block) or — transiently, after a rewind, when a block is re-scanned
+    before the block that creates the notes it spends — belongs to a transaction of a scanned
+    block that receives nothing for the wallet and spends no note whose creating block is
+    scanned (for every other transaction of a scanned block the row must be mined:
+    C01_spends_complete, [iv_recv]).  Such a row is re-mined when the creating block is scanned. *)
+Definition find_tx (S : list block) (id : N) : option tx :=
+  find (fun t => N.eqb (t_id t) id) (all_txs S).
+
 Definition chk_txs (S : list block) (d : dump) : bool :=
+  let created := map (fun e : out * N * N => o_key (fst (fst e))) (owned_outs S) in
   forallb (fun r =>
     match x_mined r with
-    | None => negb (memN (x_id r) (tx_ids S))
+    | None =>
+        match find_tx S (x_id r) with
+        | None => true
+        | Some t => negb (existsb owned (t_outs t)) && negb (existsb (fun k => mem_key k created) (t_spends t))
+        end
     | Some h => existsb (fun b => N.eqb (b_height b) h && memN (x_id r) (map t_id (b_txs b))) S
     end) (d_txs d).
 
